@@ -63,6 +63,7 @@ def run(check, prog):
     precedence(check, prog)
     precedence_tables(check, prog)
     forward(check, prog)
+    forward_failures(check, prog)
     name_agreement(check, prog)
     # per-channel noise / scaling given as labelled arrays pass through the
     # parameter map (rule shared with C11) ...
@@ -620,6 +621,128 @@ def forward(check, prog):
                   'func = model._lnposterior, pixels = new_pixels, prefactor = -1 if '
                   'minus else 1', prog.loc(q, prog.func(q + '.__init__')),
                   fail_detail='stores %s' % {k: show(v)[:50] for k, v in st.items()})
+
+
+COMPILED = ('holopy.scattering.theory.mie_f', 'holopy.scattering.theory.tmatrix_f')
+
+
+def solver_failures(prog):
+    """Exception classes of holopy.scattering.errors that a theory raises after a
+    compiled routine it called has come back: what a forward calculation at
+    proposed parameter values can end in.  {class qual: [site, ...]}"""
+    import ast
+    out = {}
+    for name, m in sorted(prog.modules.items()):
+        if not name.startswith('holopy.scattering.theory.'):
+            continue
+        compiled = {local for local, imp in m.imports.items()
+                    if local != '*' and imp[0] == 'obj' and imp[1].startswith(COMPILED)}
+        if not compiled:
+            continue
+        for fd in ast.walk(m.tree):
+            if not isinstance(fd, ast.FunctionDef):
+                continue
+            def has_call(node):
+                for n in ast.walk(node):
+                    if isinstance(n, ast.Call):
+                        f = n.func
+                        while isinstance(f, ast.Attribute):
+                            f = f.value
+                        if isinstance(f, ast.Name) and f.id in compiled:
+                            return True
+                return False
+
+            if not has_call(fd):
+                continue
+            raises = []
+
+            def visit(stmts, ran):
+                # ran: a compiled routine may have run before this statement.
+                # The refusals before it are about the kind of input, not about
+                # what the solver found
+                for st in stmts:
+                    if isinstance(st, ast.Raise):
+                        if ran and st.exc is not None:
+                            raises.append(st)
+                        continue
+                    if isinstance(st, (ast.FunctionDef, ast.ClassDef)):
+                        continue
+                    blocks = [getattr(st, a) for a in ('body', 'orelse', 'finalbody')
+                              if isinstance(getattr(st, a, None), list)]
+                    blocks += [h.body for h in getattr(st, 'handlers', [])]
+                    if blocks:
+                        head = [getattr(st, a) for a in ('test', 'iter')
+                                if getattr(st, a, None) is not None]
+                        head += [i.context_expr for i in getattr(st, 'items', [])]
+                        inner = ran or any(has_call(h) for h in head)
+                        loop = isinstance(st, (ast.For, ast.While)) and has_call(st)
+                        for b in blocks:
+                            visit(b, inner or loop)
+                    ran = ran or has_call(st)
+
+            visit(fd.body, False)
+            for n in raises:
+                    e = n.exc.func if isinstance(n.exc, ast.Call) else n.exc
+                    r = prog.resolve_expr(name, e)
+                    if r[0] == 'class' and r[1].startswith('holopy.scattering.errors.'):
+                        out.setdefault(r[1], []).append(
+                            '%s:%d (%s)' % (m.relpath, n.lineno, fd.name))
+    return out
+
+
+def forward_failures(check, prog):
+    """P6-forward-failures: `_forward` is what lnlike, the fitting residuals and
+    the samplers call at every proposed parameter vector; each implementation of
+    it turns a solver's refusal into -inf.  The implementations are siblings of
+    one interface, so they must turn the same refusals into -inf: every failure
+    class a theory raises around a compiled call must be handled by each."""
+    import ast
+    fails = solver_failures(prog)
+    check.floor('P6-forward-failures: failure classes raised around compiled calls',
+                len(fails), 2)
+    mod = prog.module('holopy.inference.model')
+    seen = 0
+    for q in prog.subclasses(M + 'Model'):
+        c = prog.cls(q)
+        fd = c.methods.get('_forward')
+        if fd is None:
+            continue
+        tries = [n for n in ast.walk(fd) if isinstance(n, ast.Try) and any(
+            isinstance(x, ast.Return) and x.value is not None
+            for b in n.body for x in ast.walk(b))]
+        if not tries:
+            continue
+        seen += 1
+        t = tries[0]
+        handled = set()
+        catch_all = False
+        for h in t.handlers:
+            inf = any(isinstance(x, ast.Return) and x.value is not None and
+                      ast.unparse(x.value).replace(' ', '') in (
+                          '-np.inf', '-numpy.inf', "-float('inf')", "float('-inf')",
+                          '-math.inf', '-inf')
+                      for b in h.body for x in ast.walk(b))
+            if not inf:
+                continue
+            if h.type is None:
+                catch_all = True
+                continue
+            for e in (h.type.elts if isinstance(h.type, ast.Tuple) else [h.type]):
+                r = prog.resolve_expr(mod.name, e)
+                if r[0] == 'class':
+                    handled.add(r[1])
+                elif isinstance(e, ast.Name) and e.id in ('Exception', 'BaseException'):
+                    catch_all = True
+        for f, sites in sorted(fails.items()):
+            ok = catch_all or any(prog.is_subclass(f, h) for h in handled)
+            check.require(ok, 'P6-forward-failures',
+                          '%s._forward handles %s' % (c.name, f.rpartition('.')[2]),
+                          'a forward calculation that ends in %s (raised at %s) gives '
+                          '-inf' % (f.rpartition('.')[2], sites[0]),
+                          prog.loc(mod, t),
+                          fail_detail='handlers returning -inf name %s' % sorted(
+                              h.rpartition('.')[2] for h in handled))
+    check.floor('P6-forward-failures: _forward implementations with a handler', seen, 2)
 
 
 def name_agreement(check, prog, modules=('holopy.inference.model',)):
